@@ -302,3 +302,69 @@ def c01_pay_fee(run):
         if not n_ok:
             raise Inconclusive('vacuity: no Ok path for ' + name)
     run.require_reached(*run.cur.reach)
+
+
+# ----------------------------------------------------------------------------------------------------------------- C01-5
+def end_block_hooks():
+    def h_delta_new(ctx):
+        d = Obj('StateDelta', kind='cell'); d.attrs['delta'] = True
+        ctx.st.log.append(('delta_new', d.lz))
+        return [(None, d)]
+
+    def h_component_end(ctx):
+        ctx.st.log.append(('component_end_block', ctx.name[:60]))
+        return [(None, M.thunk_future(lambda ex, s2, fut: [(None, M.ok(()))]))]
+
+    def h_arc_unwrap(ctx):
+        a = ctx.ex.deref_val(ctx.st, ctx.args[0])
+        inner = a.fields[('in', 0)] if isinstance(a, Obj) and a.kind == 'arc' else a
+        return [(None, M.ok(inner))]
+
+    def h_apply(ctx):
+        v = ctx.ex.deref_val(ctx.st, ctx.args[1])
+        ctx.st.log.append(('apply', getattr(v, 'lz', None), len([e for e in ctx.st.log if e[0] == 'write' and e[1] == 'balance'])))
+        return [(None, M.new_vec('Vec<Event>', []))]
+
+    def h_cometbft(ctx):
+        return [(None, M.ok(M.new_vec('Vec<ValidatorUpdate>', [])))]
+    return [(re.compile(r'^(cnidarium::)?StateDelta::<.*>::new$'), h_delta_new), (re.compile(r'Component as .*Component>::end_block|Component>::end_block'), h_component_end),
+            (re.compile(r'^Arc::<.*>::try_unwrap$'), h_arc_unwrap), (re.compile(r'(^|::)App::apply$'), h_apply), (re.compile(r'try_into_cometbft$'), h_cometbft),
+            (re.compile(r'^<Arc<.*> as Clone>::clone$'), lambda ctx: [(None, ctx.args[0])]), (re.compile(r'^<i64 as TryFrom<u64>>::try_from$|<u64 as TryInto<i64>>::try_into$'), None)]
+
+
+@obligation('C01', 'C01-5 end_block pays every accumulated block fee to the fee recipient, once, in the state that is applied')
+def c01_end_block(run):
+    ex, W = A.engine(extra_hooks=[h for h in end_block_hooks() if h[1] is not None])
+    f = ex.find(r'^app::<impl at [^>]*>::end_block$')
+    for a_ in COMMON_ASSUME:
+        run.assume(a_)
+    run.assume('component end_block handlers are no-ops returning Ok (they do not touch balances: AccountsComponent/FeesComponent/IbcComponent end_block are empty, AuthorityComponent only touches validator state)')
+    run.bound(block_fees='0, 1 or 2 distinct fee assets with arbitrary totals', recipient='arbitrary [u8;20]', state='arbitrary symbolic chain state')
+    n_ok = 0
+    for k in (0, 1, 2):
+        w0 = initial_world()
+        fees = [(z3.BitVec(f'fee_asset{i}', 256), z3.BitVec(f'fee_total{i}', 128), z3.BitVecVal(0, 64)) for i in range(k)]
+        app = Obj('App'); rec = z3.BitVec('fee_recipient', 160); height = z3.BitVec('height', 64)
+        st = ex.start(f, [B.cell(app), height, B.cell(rec)], world=dict(w0, block_fees=list(fees)))
+        st.pc += [fees[a][0] != fees[b][0] for a in range(k) for b in range(a + 1, k)] + [z3.ULT(height, z3.BitVecVal(1 << 62, 64))]
+        for i, p in enumerate(run.explore(ex, st, poll=True, allow_havoc=(r'^Arguments::|fmt::', r'EndBlock', r'Default>::default'))):
+            lab = f'[{k} fee assets, path {i}]'
+            if p.kind != 'return':
+                run.prove(f'no panic {lab}', p.pc, z3.BoolVal(False), detail=p.info); continue
+            kind, r = poll_result(p)
+            applies = [e for e in p.log if e[0] == 'apply']; bw = balance_writes(p)
+            run.sample({'fee_assets': k, 'path': i, 'result': kind, 'balance_writes': len(bw), 'applies': len(applies)})
+            if kind != 'Ok':
+                continue
+            n_ok += 1
+            post = w0['balance']; nowrap = []
+            for asset, total, _ in fees:
+                kk = bal_key(rec, asset)
+                nowrap.append(z3.BVAddNoOverflow(z3.Select(post, kk), total, False))
+                post = z3.Store(post, kk, z3.Select(post, kk) + total)
+            run.prove(f'Ok => the recipient is credited exactly each asset\'s block-fee total (no wrap), nothing else moves, and the credited state is applied exactly once afterwards {lab}', p.pc,
+                      z3.And(p.world['balance'] == post, *nowrap, z3.BoolVal(len(applies) == 1 and applies[0][2] == k and len(bw) == k),
+                             unchanged(w0, p.world, except_=('balance', 'block_fees', 'validator_updates'))))
+    if not n_ok:
+        raise Inconclusive('vacuity: no Ok path')
+    run.require_reached(*run.cur.reach)
